@@ -90,6 +90,11 @@ CLAIMED = {
   text='Decides necessary conditions only: cproc\'s own 19 translation units stay inside the subset cproc accepts (so a stage 2 can exist); the initializer list discipline its static tables rely on holds for all 399 histories of up to 3 nested/disjoint initializers; nothing in the compiler depends on environment, addresses, hash order or uninitialised constructor fields; hash() reads exactly the key; the instruction-selection table is right for every operator x type (incl. the 64-bit relational arms the compiler\'s own code uses). Byte-identity of stage-1 and stage-2 output is NOT decided (needs the QBE backend and execution).',
   note='Trusts clang 14 front end, lib/eai.py, witness/c02_witness.c, and the rules it shares with C01/C16/C20.',
   design='5/C02'),
+ 'C07': dict(
+  technique='abstract interpretation of init.c:parseinit (scripted token cursor), qbe.c:emitdata/dataitem (output modelled, rendered and decoded) and qbe.c:funcinit/zero (stores modelled as events and replayed on an abstract bit memory) over generated (type, initializer) and init-list families; compared with a reference implementation of the C11 6.7.9 cursor semantics and of the object image',
+  text='Decides on finite generated families (non-exhaustive, grammar-driven with a fixed seed): (a) for ~1100 (quick) / ~3500 (thorough) initialisers over 19 object types (nested structs, unions, arrays incl. unknown size, 2-D, bit-fields with unnamed/zero-width neighbours, anonymous members, char arrays) with positional, designated, mixed, overriding, brace-elided, string and struct-valued initialisers, the (bit range -> expression) list parseinit builds equals - as an image and as an ordered, containment-only list - what C11 6.7.9p17-22 prescribes, with the right size for arrays of unknown size and diagnostics for excess initialisers / bad designators; (b) for ~2900 init lists (all bit-field/scalar member words <= 2, samples of 3 and 4, strings with element overrides, address and floating constants) the emitted data definition decodes byte-for-byte to the reference image with the object size and alignment; (c) for the same lists plus aggregate-copy/overlay shapes, the stores funcinit emits leave every member bit with its prescribed value and never read-modify-write unzeroed storage. NOT decided: conversions of the initialising values (C05/C04), constant-expression evaluation of address constants, compound literals and string-literal objects (stringdecl), initialisers the compilers disagree on (braced re-initialisation of a partly initialised subobject: left unjudged and counted).',
+  note='Trusts clang 14 front end, lib/eai.py, the models in props/c07.py (token cursor, assignexpr/exprassign as identity on labelled expressions, printf renderer, funcinst/funcstore events) and the reference ref_list/ref_image/layout_bits (layout validated under C06). One known finding (funcinit re-zeroes the rest of an overlaid initialiser; the repair contradicts two golden tests) is listed in known_findings.json.',
+  design='5/C07'),
  'C06': dict(
   technique='abstract interpretation of decl.c:tagspec/addmember/declarator, type.c:typemember/typehasint/mkarraytype and expr.c:builtinfunc(offsetof) over bounded families of member-declaration sequences, enumerator lists, type trees and array declarators built from the compiler\'s static type descriptors; results compared with a psABI layout reference and a C23/LP64 enum reference (both validated once against gcc 12 / clang 14, tools/validate_c06_ref.py)',
   text='Decides for x86-64 SysV: (a) size, alignment, member offsets and bit-field storage unit/bit position for every struct of up to 3 (quick: 2 + 600 of length 3) and union of up to 2 member declarations over an alphabet of 25 member forms (all integer base types x widths 0/1/3/7/8/9/15/16/31/32/33/40/63/64, named/unnamed, plain scalars, nested struct, array, long double); (b) a table of _Alignas/packed cases; (c) the enum type, enumerator values and enumerator types for all enumerator lists of length <= 2 (thorough 3) over 17 boundary values, with and without a fixed underlying type; (d) offsetof through anonymous members / arrays over 5 type trees; (e) array sizes incl. overflow and negative-length diagnostics. NOT decided: longer member sequences, nesting-depth interactions beyond the alphabet, aligned(n) attribute parsing, aarch64/riscv64 (the layout code is target-independent; only the scalar tables differ, covered by C05.f).',
@@ -102,7 +107,6 @@ CLAIMED = {
   design='5/C01'),
 }
 NA = {
- 'C07': 'byte images are functions of run-time offsets, bit positions and values flowing through initadd/emitdata; not decidable by a static rule in this family',
 }
 
 def main():
